@@ -392,6 +392,11 @@ def check_parser(p, ctx):
         raise
     finally:
         shutil.rmtree(tmpdir, ignore_errors=True)
+    if p["source"] == "raster" and p.get("raw") and p.get("wild"):
+        from ..meshcheck import mesh_problems
+        if mesh_problems(v, e, c):
+            ctx.skip("skeleton parser left an inconsistent mesh on a raw irregular raster (known finding D30, C09)")
+            return
     if p.get("ne"):
         try:
             v, e, c, _ = call(fve.generate_mesh, v, e, c, ne=p["ne"])
